@@ -653,6 +653,8 @@ def run(ctx):
     r05d(ctx)
     # replace(formatted=True) re-encodes the replacement through append_plain_text: the characters its splitter isolates must be the ones the encoder arms handle (shared with C05)
     r05c(ctx)
+    from .round12 import r16l
+    r16l(ctx)
 
 
 from ..selftest import Seed, unparse_seed  # noqa: E402
